@@ -152,6 +152,13 @@ func genAudioCase(t *rapid.T) *AudioCase {
 	if c.Len > 10000 {
 		c.Len = 10000
 	}
+	if rapid.IntRange(0, 99).Draw(t, "jumbo") == 0 {
+		// beyond the stated 0-10000: lengths that do not fit 16 bits, with an MTU that keeps the fragment count small
+		c.Len = rapid.SampledFrom([]int{65534, 65535, 65536, 65537, 70000, 131072}).Draw(t, "jumbolen")
+		if c.MTU < 500 {
+			c.MTU = uint16(rapid.SampledFrom([]int{1200, 9000, 65535}).Draw(t, "jumbomtu"))
+		}
+	}
 
 	return c
 }
